@@ -163,3 +163,18 @@ func WriteCodeToFile(path string, codeMap map[string][]byte) error {
 	}
 	return nil
 }
+
+// matchFactoryName names the message factory of a match field: the packet name, as long as the packet has
+// one match field; packet and field name when it has several, so that each table gets a factory of its own
+func matchFactoryName(p *model.Packet, f *model.Field) string {
+	matchFields := 0
+	for _, other := range p.Fields {
+		if _, ok := other.Attr.(*model.MatchFieldAttribute); ok {
+			matchFields++
+		}
+	}
+	if matchFields <= 1 {
+		return p.Name
+	}
+	return p.Name + "_" + f.Name
+}
